@@ -316,6 +316,7 @@ def stepSreq (st : DState) (toks : List String) (impl : String) : Proto.Verdict 
       let at_ ← (← kv toks "at").toInt?
       let h ← (← kv toks "h") |> unxList
       let sc ← parseScript toks "" at_
+      let sc := sc.withCancel at_ ((kv toks "cx").bind (·.toInt?))
       return (made, Req.ofSession s.opts (h.headD "").toList sc)
     match parsed with
     | none => { model := "bad-op" }
